@@ -894,7 +894,7 @@ func (st *c26State) randomSequence(idx int, rng *rand.Rand, ops int) {
 	st.addSig(local)
 }
 
-const c26Rule = "every operation sequence over the listed alphabet up to the stated length for capacities 0..3 (depth-first with a copy of the buffer per branch) plus random 10^4-operation sequences on capacities up to 70000, each step compared with a slice-backed FIFO model (n, err, Used, Free, Size, bytes returned, bytes handed to the writer, bytes taken from the reader, drained copy); evaluations = operations executed at distinct sequence positions; distinct = distinct (capacity, fill before, operation, result) tuples of the exhaustive part and (capacity class, fill state, operation shape) of the random part"
+const c26Rule = "every operation sequence over the listed alphabet up to the stated length (6 quick / 7 thorough for capacities 2 and 3, one less for capacities 0 and 1; thorough adds length 8 over a 14-operation core alphabet) (depth-first with a copy of the buffer per branch) plus random 10^4-operation sequences on capacities up to 70000, each step compared with a slice-backed FIFO model (n, err, Used, Free, Size, bytes returned, bytes handed to the writer, bytes taken from the reader, drained copy); evaluations = operations executed at distinct sequence positions; distinct = distinct (capacity, fill before, operation, result) tuples of the exhaustive part and (capacity class, fill state, operation shape) of the random part"
 
 func c26() {
 	r := vk.Start("C26", "exploration")
@@ -913,16 +913,22 @@ func c26() {
 		r.Note("degraded", "ring.Buffer's layout is not the expected one; prefixes are replayed and the bound is 5")
 	}
 	for capacity := 0; capacity <= 3; capacity++ {
-		fmt.Printf("case exhaustive capacity=%d alphabet=%d length<=%d\n", capacity, len(full), lenFull)
-		st.exhaust(capacity, full, lenFull, useClone)
+		// Capacities 0 and 1 have no wrap-around and two fill states at most;
+		// one operation less loses nothing there and halves the cost.
+		l := lenFull
+		if capacity < 2 {
+			l--
+		}
+		fmt.Printf("case exhaustive capacity=%d alphabet=%d length<=%d\n", capacity, len(full), l)
+		st.exhaust(capacity, full, l, useClone)
 	}
-	r.Note("exhaustive_full_alphabet", map[string]any{"operations": len(full), "max_length": lenFull, "capacities": "0..3"})
+	r.Note("exhaustive_full_alphabet", map[string]any{"operations": len(full), "max_length_capacity_2_3": lenFull, "max_length_capacity_0_1": lenFull - 1})
 	if !r.Quick() && useClone {
-		for capacity := 1; capacity <= 3; capacity++ {
+		for capacity := 2; capacity <= 3; capacity++ {
 			fmt.Printf("case exhaustive capacity=%d alphabet=%d length<=8\n", capacity, len(core))
 			st.exhaust(capacity, core, 8, true)
 		}
-		r.Note("exhaustive_core_alphabet", map[string]any{"operations": len(core), "max_length": 8, "capacities": "1..3"})
+		r.Note("exhaustive_core_alphabet", map[string]any{"operations": len(core), "max_length": 8, "capacities": "2..3"})
 	}
 	r.Count("exhaustive_sequences", st.nodes.Load())
 	exh := st.nodes.Load()
